@@ -513,8 +513,13 @@ def surfaces(draw, max_n=8):
     n = draw(st.integers(0, max_n))
     out = []
     for _ in range(n):
-        kind = draw(st.sampled_from(['boundary', 'mid', 'mid', 'above', 'bottom']))
+        kind = draw(st.sampled_from(['boundary', 'mid', 'mid', 'above', 'bottom', 'twin']))
         ci, li = draw(st.integers(0, 400)), draw(st.integers(0, 30))
+        if kind == 'twin':
+            # two consecutive columns (usually neighbours) cut in the same layer at almost, but not quite, the same elevation
+            fr = draw(st.sampled_from([0.3, 0.5, 0.8]))
+            out.append([ci, li, fr]); out.append([ci + 1, li, fr + draw(st.sampled_from([1e-4, 3e-4, -2e-4, 2e-3]))])
+            continue
         if kind == 'boundary': fr = 0.0
         elif kind == 'above': fr = 1.0 + draw(st.sampled_from([0.0, 0.5, 1.75]))
         elif kind == 'bottom': li, fr = -1, draw(st.sampled_from([0.25, 0.5, 0.9]))
